@@ -64,7 +64,7 @@ def universe():
         shift.append(srow)
         nodes.append(nrow)
     hdr = dict(shift=shift, nodes=nodes, nf=[NFQ[q] for q in QSORT],
-               user=[xid[x] for x in user[:4]], uq=[QSORT.index(q) + 1 for q in QS[:2]])   # what Emit_C14 may request
+               user=[xid[x] for x in user[:4]], uq=[QSORT.index(q) + 1 for q in QS])   # what Emit_C14 may request
     return xg, user, xid, hdr
 
 
@@ -97,6 +97,9 @@ def make_plans(seed, quick):
         plans.append((t, 1, [("F2", [kin(xb, QS[0], False), kin(xb, QS[1], False)])]))
         plans.append((t, 1, [("F2", [kin(xb, QS[1], False), kin(xb, QS[0], False)])]))
         plans.append((t, 1, [("F2", [kin(xb, QS[1], False)])]))
+        # three and four distinct virtualities listed in an order that is NOT a self-inverse permutation of the sorted one
+        plans.append((t, 1, [("F2", [kin(xb, QS[1], False), kin(xb, QS[3], False), kin(xb, QS[0], False)])]))
+        plans.append((t, 1, [("FL", [kin(xb, QS[0], False), kin(xb, QS[1], True), kin(xb, QS[3], False), kin(xb, QS[2], False)])]))
         plans.append((t, 2, [("FL", [kin(xb, QS[0], False), kin(xa1, QS[0], True)]), ("F2", [kin(xa1, QS[0], False)])]))
         plans.append((t, 1, [("F2", [kin(xa1, QS[0], False)]), ("FL", [kin(xb, QS[0], False), kin(xa1, QS[0], True)])]))
         plans.append((t, 1, [("XS", [kin(xb, QS[0], False, True)]), ("F2", [kin(xb, QS[0], False)])]))
